@@ -189,7 +189,15 @@ func (e *Exponent) UnmarshalBinary(data []byte) error {
 		return errors.New("can't unmarshal Exponent with no group")
 	}
 	group := e.group
+	if len(data) < 4 {
+		return errors.New("exponent: data too short")
+	}
 	size := binary.BigEndian.Uint32(data)
+	// every coefficient takes more than one byte of the remaining data: a larger count is a lie,
+	// and must not be trusted for the allocation below
+	if uint64(size) > uint64(len(data)-4) {
+		return errors.New("exponent: coefficient count exceeds data length")
+	}
 	e.coefficients = make([]curve.Point, int(size))
 	for i := 0; i < len(e.coefficients); i++ {
 		e.coefficients[i] = group.NewPoint()
@@ -197,6 +205,14 @@ func (e *Exponent) UnmarshalBinary(data []byte) error {
 	rawExponent := rawExponentData{Coefficients: e.coefficients}
 	if err := cbor.Unmarshal(data[4:], &rawExponent); err != nil {
 		return err
+	}
+	if len(rawExponent.Coefficients) != int(size) {
+		return errors.New("exponent: coefficient count does not match the encoded coefficients")
+	}
+	for _, c := range rawExponent.Coefficients {
+		if c == nil {
+			return errors.New("exponent: nil coefficient")
+		}
 	}
 	e.group = group
 	e.coefficients = rawExponent.Coefficients
